@@ -143,6 +143,38 @@ func C11(p *core.Program, r *core.Report) {
 		r.Add("D3", "state survives a call: "+firstKey, p.Pos(first.Pos), false, fmt.Sprintf("%d writes to package-level state; an earlier call can influence a later one (details: check C12)", bad), a.Chain(first)...)
 	}
 
+	// D3 also: the effects analysis trusts the synchronised containers of the standard library
+	// to be safe for concurrent use (C12) - but what is put into one is state that survives a
+	// call all the same: module code does not fill sync.Map / sync.Pool or bump atomic counters
+	{
+		mut := map[string]bool{"Store": true, "LoadOrStore": true, "LoadAndDelete": true, "Delete": true, "Swap": true, "CompareAndSwap": true, "CompareAndDelete": true, "Clear": true, "Put": true, "Add": true, "And": true, "Or": true}
+		n := 0
+		for _, fn := range p.ModFunctions(false) {
+			for _, call := range core.Calls(fn, func(ci ssa.CallInstruction) bool {
+				f := core.Callee(ci)
+				if f == nil {
+					return false
+				}
+				switch core.FnPkgPath(f) {
+				case "sync":
+					rt := ""
+					if f.Signature.Recv() != nil {
+						rt = f.Signature.Recv().Type().String()
+					}
+					return (strings.Contains(rt, "sync.Map") || strings.Contains(rt, "sync.Pool")) && mut[f.Name()]
+				case "sync/atomic":
+					nm := f.Name()
+					return mut[nm] || strings.HasPrefix(nm, "Add") || strings.HasPrefix(nm, "Store") || strings.HasPrefix(nm, "Swap") || strings.HasPrefix(nm, "CompareAndSwap") || strings.HasPrefix(nm, "And") || strings.HasPrefix(nm, "Or")
+				}
+				return false
+			}) {
+				n++
+				r.Add("D3", "state survives a call: "+core.ShortKey(fn)+" fills a synchronised container or counter ("+core.Callee(call).String()+")", p.Pos(call.Pos()), false, "what one call stores there a later call can read: the result would depend on the calls made before")
+			}
+		}
+		r.Add("D3", "module code does not fill synchronised containers or atomic counters", "", n == 0, fmt.Sprintf("%d uses", n))
+	}
+
 	// D3b: a call must not change its own inputs either (a later call with the same objects would
 	// see a different document / page URL)
 	for _, e := range entryPoints {
